@@ -397,7 +397,7 @@ func c15Units(tier string) []*Unit {
 	// suggestion on longer plain names
 	us = append(us, &Unit{Name: "suggestions", Weight: 1, Custom: func(u *Unit, dir string, deadline time.Time) *vlab.UnitResult {
 		res := &vlab.UnitResult{SigCounts: map[string]int{}, Extra: map[string]any{}}
-		names := []string{"build", "deploy", "test-all", "lint:go"}
+		names := []string{"build", "deploy", "test-all", "lint:go", "Release", "makeDocs"}
 		tasks := []c15Task{}
 		for _, n := range names {
 			tasks = append(tasks, c15Task{name: n})
